@@ -103,6 +103,7 @@ pub fn regtest_cfg() -> WorldCfg {
         policy: make_default_simple_policy(Network::Regtest),
         now_secs: 1_700_000_000,
         trusted_oracles: vec![],
+        no_checkpoints: false,
     }
 }
 
